@@ -262,8 +262,11 @@ class Tables(Part):
             ctx.violation("rectangle", "C07/rectangle/too-wide", "body is %d cells wide, %d available\n%s\n%s" % (bw, limit, "\n".join(body), desc))
             return
         no_cap = all(c["max_width"] is None for c in n["cols"])
-        if body and n["expand"] and no_cap and bw != limit and limit >= smin:
-            ctx.violation("expand", "C07/expand/%s" % ("one-short" if bw == limit - 1 else "not-exact"), "expanding table is %d cells wide with %d available\n%s\n%s" % (bw, limit, "\n".join(body), desc))
+        # a table given an explicit width= is asked to be that wide (documented: "the width in characters of the table"; Table.expand is true for it), whatever expand= / min_width= say
+        if body and (n["expand"] or twidth is not None) and no_cap and bw != limit and limit >= smin:
+            if not n["expand"]:
+                ctx.cls("explicit-width-without-expand")
+            ctx.violation("expand", "C07/expand/%s" % (("one-short" if bw == limit - 1 else "not-exact") if n["expand"] else "explicit-width"), "expanding table is %d cells wide with %d available\n%s\n%s" % (bw, limit, "\n".join(body), desc))
             return
         # annotations only surround the body
         if n["title"] or n["caption"]:
